@@ -49,12 +49,18 @@ GEN_ALPHA = {
     "D": [None, "1970-01-01", "2020-02-29", "1969-12-31"],
     "us": [None, "1970-01-01T00:00:00", "2020-02-29T23:59:59.999999"],
 }
+# infinities next to missing values: an infinity is a value (sum / mean follow IEEE arithmetic, min / max order it)
+INF_ALPHA = {"f8": [None, "1.0", "inf", "-inf"]}
 DROP = [None, True, False]
 
 
 def helper_calls(family, kind):
     """List of (helper, kwargs) for a family of alphabets."""
     calls = []
+    if family == "inf":
+        for h in ("sum", "mean", "min", "max", "count", "count_unique", "first", "last"):
+            calls += [(h, {"drop_na": d}) for d in DROP]
+        return calls
     if family == "stat":
         for h in ("mean", "median", "sum"):
             calls += [(h, {"drop_na": d}) for d in DROP]
@@ -85,7 +91,7 @@ def shards(tier):
     out = []
     nv = 4 if tier == "quick" else 5
     ng = 3 if tier == "quick" else 4
-    for family, alphas in (("stat", STAT_ALPHA), ("gen", GEN_ALPHA)):
+    for family, alphas in (("stat", STAT_ALPHA), ("gen", GEN_ALPHA), ("inf", INF_ALPHA)):
         for kind in alphas:
             out.append({"part": "vector", "family": family, "kind": kind, "n": nv})
             out.append({"part": "long", "family": family, "kind": kind})
@@ -256,7 +262,7 @@ def long_cases(alpha, kind, calls):
 
 def run_shard(shard, rec):
     family, kind = shard["family"], shard["kind"]
-    alpha = (STAT_ALPHA if family == "stat" else GEN_ALPHA)[kind]
+    alpha = {"stat": STAT_ALPHA, "gen": GEN_ALPHA, "inf": INF_ALPHA}[family][kind]
     calls = [[h, kw] for h, kw in helper_calls(family, kind)]
     if shard["part"] == "long":
         for case in long_cases(alpha, kind, calls):
